@@ -511,6 +511,12 @@ func (v *rpcView) do(ctx context.Context, kind string, node model.Server, term i
 	if n == nil {
 		return nil, status.Error(codes.Unavailable, "harness: unknown node "+name)
 	}
+	if kind == "DeleteShard" {
+		// monitors that compare a node's state across time must know that it may be wiped from here on
+		h.mu.Lock()
+		h.recordLocked(Rec{Inc: v.inc.ID, Phase: "begin", Kind: kind, Node: name, Term: term, Call: call}, nil)
+		h.mu.Unlock()
+	}
 	res, head, err := exec(n)
 	h.mu.Lock()
 	r := Rec{Inc: v.inc.ID, Phase: "exec", Kind: kind, Node: name, Term: term, OK: err == nil, Call: call, Head: headStr(head)}
@@ -653,6 +659,9 @@ func (h *Harness) Ghost(kind, node string, req any) error {
 		res, err = n.AddFollower(q)
 	case *proto.DeleteShardRequest:
 		term = q.Term
+		h.mu.Lock()
+		h.recordLocked(Rec{Inc: 0, Phase: "begin", Kind: kind, Node: node, Term: term, Note: "ghost"}, nil)
+		h.mu.Unlock()
 		res, err = n.DeleteShard(q)
 	default:
 		return errors.New("unsupported ghost")
